@@ -217,7 +217,50 @@ fn regular(t: Tier) -> BoxedStrategy<Case> {
 
 fn index(t: Tier) -> BoxedStrategy<Case> {
     let p = MMParams { max_tokens: t.pick(16, 60), ..MMParams::regular(t) };
-    index_strategy(p, 2).prop_map(|i| Case::Model(MAny::Index(i))).boxed()
+    (index_strategy(p, 2), any::<u8>())
+        .prop_map(|(mut i, tie)| {
+            // C01 does not ask for strictly increasing offsets (C08 does): in a sixth of the cases two
+            // neighbouring sections share an offset (an empty module followed by the next one); they are
+            // listed in offset order, so "the same section offsets/URLs" has one reading
+            if tie % 6 == 0 && i.sections.len() >= 2 {
+                let k = (tie as usize / 6) % (i.sections.len() - 1);
+                i.sections[k + 1].off = i.sections[k].off;
+                i.order = vec![];
+            }
+            Case::Model(MAny::Index(i))
+        })
+        .boxed()
+}
+
+/// The round trip of a map that was *produced* by the crate (rewrite of a regular or Hermes map,
+/// flatten of an index, adjust_mappings, an earlier round trip) rather than built from parts.
+fn check_produced(c: &super::c03::Case, obs: &mut Obs) -> Verdict {
+    let base = match c.base.build() {
+        Ok(m) => m,
+        Err(e) => return Verdict::Fail(format!("building the model failed: {e}")),
+    };
+    let m = match produce(base, &c.producer) {
+        Ok(m) => m,
+        Err(e) if e.starts_with("n/a:") => return Verdict::Pass,
+        Err(e) => return Verdict::Fail(e),
+    };
+    obs.class(match (&c.base, &c.producer) {
+        (MAny::Hermes(_), Producer::Rewrite { .. }) => "rewritten-hermes-map",
+        (MAny::Index(_), Producer::Flatten) => "flattened-index",
+        (_, Producer::Rewrite { .. }) => "rewritten-map",
+        (_, Producer::Adjust(_)) => "adjusted-map",
+        (_, Producer::WrapFlatten { .. }) => "wrapped-and-flattened-map",
+        _ => "other",
+    });
+    match roundtrip(&m, false, obs) {
+        Verdict::Fail(e) => Verdict::Fail(format!("map produced by {:?}: {e}", c.producer)),
+        v => {
+            if !matches!(c.producer, Producer::Direct) && nontrivial_any(&c.base) {
+                obs.nontrivial();
+            }
+            v
+        }
+    }
 }
 
 fn hermes(t: Tier) -> BoxedStrategy<Case> {
@@ -318,6 +361,7 @@ fn check_composed(c: &super::c03::CCase, obs: &mut Obs) -> Verdict {
 
 fn subs() -> Vec<Sub> {
     vec![
+        gen_sub("produced_maps", super::c03::case_strategy, |t| t.pick(20_000, 200_000), check_produced),
         gen_sub("composed_operations", super::c03::composed, |t| t.pick(15_000, 150_000), check_composed),
         gen_sub("living_object", super::c03::living, |t| t.pick(16_000, 160_000), check_living),
         gen_sub("large_regular", large, |t| t.pick(300, 3_000), check),
